@@ -282,7 +282,7 @@ def path_lines_bend(pid, p, g):
 def compare_outlines(case, fail, before, after, M, g, tol):
     exp = [{"tag": q["tag"], "pts": [M((x / g, y / g)) for x, y in q["pts"]]} for q in before]
     got = [{"tag": q["tag"], "pts": [(x / g, y / g) for x, y in q["pts"]]} for q in after]
-    miss, rest = fm.match_multiset(exp, got, lambda a, b: a["tag"] == b["tag"] and fm.outline_close(a["pts"], b["pts"], tol))
+    miss, rest = fm.match_multiset(exp, got, lambda a, b: a["tag"] == b["tag"] and (fm.outline_close(a["pts"], b["pts"], tol) or fm.region_close(a["pts"], b["pts"], tol)))
     if miss is not None:
         fail("outlining the transformed path does not give the transformed outline: expected a polygon near %s, got polygons starting %s" %
              ([tuple(round(v, 4) for v in p) for p in miss["pts"][:3]], [[tuple(round(v, 4) for v in p) for p in r["pts"][:2]] for r in rest[:2]]), miss["pts"][:6],
